@@ -267,6 +267,122 @@ class Select(Harness):
         check_config(P, r0["xc"], ncross, nparent, {m: (lo * c2[m], hi * c2[m]) for m in set(decn0)}, "select")
 
 
+def _stub_algo(enc, decisions, objs):
+    """optimiser stub for any encoding: returns the given decision vectors with the given (symbolic) objective values"""
+    import importlib
+    base = getattr(importlib.import_module("pybrops.opt.algo.%sOptimizationAlgorithm" % enc), "%sOptimizationAlgorithm" % enc)
+    Soln = getattr(importlib.import_module("pybrops.opt.soln.%sSolution" % enc), "%sSolution" % enc)
+
+    class Stub(base):
+        def __init__(self):
+            self.seen = []
+
+        def minimize(self, prob, miscout=None, **kw):
+            self.seen.append(prob)
+            k = len(decisions)
+            return Soln(ndecn=prob.ndecn, decn_space=prob.decn_space, decn_space_lower=prob.decn_space_lower, decn_space_upper=prob.decn_space_upper,
+                        nobj=prob.nobj, obj_wt=prob.obj_wt, nineqcv=prob.nineqcv, ineqcv_wt=prob.ineqcv_wt, neqcv=prob.neqcv, eqcv_wt=prob.eqcv_wt,
+                        nsoln=k, soln_decn=decisions, soln_obj=objs, soln_ineqcv=numpy.zeros((k, 0)), soln_eqcv=numpy.zeros((k, 0)))
+    return Stub()
+
+
+class SelectEncodings(Harness):
+    """select() of the Subset/Real/Integer/Binary EBV protocols around an optimiser stub: the configuration is sampled from the decision
+    vector the optimiser returned (single objective) or from the front member maximising ndset_wt*ndset_trans (multi-objective), with the
+    multiplicities that encoding prescribes, locally optimal for self-pairings, through the protocol's own generator"""
+    name = "select-encodings"
+    tol = 1e-7
+
+    def modules(self):
+        return MODS + ["pybrops.breed.prot.sel.RealSelectionProtocol", "pybrops.breed.prot.sel.IntegerSelectionProtocol", "pybrops.breed.prot.sel.BinarySelectionProtocol",
+                       "pybrops.opt.soln.RealSolution", "pybrops.opt.soln.IntegerSolution", "pybrops.opt.soln.BinarySolution",
+                       "pybrops.opt.algo.RealOptimizationAlgorithm", "pybrops.opt.algo.IntegerOptimizationAlgorithm", "pybrops.opt.algo.BinaryOptimizationAlgorithm",
+                       "pybrops.opt.algo.SubsetOptimizationAlgorithm"]
+
+    def inputs(self, mk):
+        n, enc = self.params["n"], self.params["enc"]
+        inp = dict(raw=mk.real("raw", (n, 2 if self.params.get("mo") else 1)), rng=mk.rng(cls=stubs.FirstPickRNG))
+        if enc == "Real":
+            x = mk.real("x", (n,), lo=0, hi=1)
+            mk.assume(sum(cells(x)[1:], cells(x)[0]) >= 1e-3)
+            inp["x"] = x
+        if self.params.get("mo"):
+            inp["front"] = mk.real("f", (2, 2))
+        return inp
+
+    def call(self, inp, mk):
+        import importlib
+        from pybrops.popgen.bvmat.DenseBreedingValueMatrix import DenseBreedingValueMatrix
+        import pybrops.breed.prot.sel.prob.trans as T
+        n, enc, mo = self.params["n"], self.params["enc"], bool(self.params.get("mo"))
+        ncross, nparent = self.params["ncross"], self.params["nparent"]
+        Prot = getattr(importlib.import_module("pybrops.breed.prot.sel.EstimatedBreedingValueSelection"), "EstimatedBreedingValue%sSelection" % enc)
+        if enc == "Real":
+            d0 = inp["x"]
+            alt = numpy.repeat(1.0 / n, n)
+            decisions = symnp._sa([list(cells(d0)), list(alt)]) if not mk.concrete else numpy.stack([d0, alt])
+        else:
+            decisions = numpy.array([self.params["decn"], self.params["alt"]])
+        if mo:
+            def pref(mat, **kw):
+                return mat[:, 0] - mat[:, 1]
+            algo = _stub_algo(enc, decisions, inp["front"])
+            prot = Prot(ntrait=2, unscale=True, ncross=ncross, nparent=nparent, nmating=1, nprogeny=1, nobj=2, ndset_wt=float(self.params.get("ndwt", 1.0)),
+                        ndset_trans=pref, ndset_trans_kwargs={}, moalgo=algo, rng=inp["rng"])
+        else:
+            algo = _stub_algo(enc, decisions[:1], inp["raw"][:1, :1] * 0.0)
+            prot = Prot(ntrait=1, unscale=True, ncross=ncross, nparent=nparent, nmating=1, nprogeny=1, nobj=1, obj_trans=T.trans_sum, soalgo=algo, rng=inp["rng"])
+        bv = DenseBreedingValueMatrix(mat=inp["raw"].copy(), location=0.0, scale=1.0, taxa=numpy.array(["t%d" % i for i in range(n)], dtype=object), taxa_grp=numpy.arange(n))
+        cfg = prot.select(pgmat=_pgmat(n), gmat=None, ptdf=None, bvmat=bv, gpmod=None, t_cur=0, t_max=1)
+        prob = algo.seen[0]
+        return dict(xc=cfg.xconfig, decn=cfg.xconfig_decn, ndecn=prob.ndecn, nobj=prob.nobj, nsolve=len(algo.seen))
+
+    def check(self, P, inp, out):
+        n, enc, mo = self.params["n"], self.params["enc"], bool(self.params.get("mo"))
+        ncross, nparent = self.params["ncross"], self.params["nparent"]
+        N = ncross * nparent
+        P.prove(out["nsolve"] == 1 and int(out["nobj"]) == (2 if mo else 1), "one-optimisation-of-the-declared-problem")
+        if enc == "Real":
+            cand = [list(cells(inp["x"])), [1.0 / n] * n]
+        else:
+            cand = [[int(v) for v in self.params["decn"]], [int(v) for v in self.params["alt"]]]
+        got = list(cells(out["decn"]))
+        if mo:
+            sc = [float(self.params.get("ndwt", 1.0)) * (cell(inp["front"], i, 0) - cell(inp["front"], i, 1)) for i in range(2)]
+            # some front member both equals the configuration's decision vector and maximises the score (members may coincide)
+            alts = []
+            for i in range(2):
+                same = And(*[P.eq(a, b) for a, b in zip(got, cand[i])]) if enc == "Real" else ([int(v) for v in got] == cand[i])
+                alts.append(And(same, *[sc[i] >= s_ for s_ in sc]))
+            P.prove(Or(*alts), "configuration-derived-from-the-front-member-maximising-the-declared-preference-transformation")
+            if enc == "Real":
+                chosen = got
+            else:
+                if [int(v) for v in got] not in cand:
+                    return
+                chosen = [int(v) for v in got]
+        else:
+            chosen = cand[0]
+            P.prove(And(*[P.eq(a, b) for a, b in zip(got, chosen)]) if enc == "Real" else ([int(v) for v in got] == chosen), "configuration-built-from-the-optimiser's-solution")
+        xc = out["xc"]
+        t = numpy.array([[int(v) for v in cells(r)] for r in xc])
+        cnt = Counter(int(v) for v in t.ravel())
+        if enc == "Subset":
+            lo, hi = N // len(chosen), -(-N // len(chosen))
+            c2 = Counter(chosen)
+            check_config(P, t, ncross, nparent, {m: (lo * c2[m], hi * c2[m]) for m in set(chosen)}, "subset")
+        elif enc in ("Integer", "Binary"):
+            W = sum(chosen)
+            lo, hi = N // W, -(-N // W)
+            check_config(P, t, ncross, nparent, {i: (lo * chosen[i], hi * chosen[i]) for i in range(n) if chosen[i] > 0}, enc.lower())
+        else:
+            W = sum(chosen[1:], chosen[0])
+            for i in range(n):
+                c = cnt.get(i, 0)
+                P.prove(And(W * (c - 1) < N * chosen[i], N * chosen[i] < W * (c + 1)), "real:multiplicity-within-one-of-the-proportional-share")
+            check_config(P, t, ncross, nparent, {m: (0, N) for m in range(n)}, "real")
+
+
 def sorted_vals(P, raw, idx):
     return [cell(raw, i, 0) for i in idx]
 
@@ -312,6 +428,13 @@ def obligations(tier):
         obs.append(h)
     for w in (1.0, -2.0):
         obs.append(Select(n=3, ncross=1, nparent=2, mo=True, t=2, front_decn=[[0, 1], [1, 2]], ndwt=w))
+    enc_cases = [("Subset", dict(decn=[2, 0], alt=[1, 2])), ("Integer", dict(decn=[2, 0, 1], alt=[1, 1, 1])), ("Binary", dict(decn=[1, 0, 1], alt=[0, 1, 1])), ("Real", dict())]
+    for enc, extra in enc_cases:
+        obs.append(SelectEncodings(enc=enc, n=3, ncross=1, nparent=2, **extra))
+        for w in (1.0, -1.0):
+            obs.append(SelectEncodings(enc=enc, n=3, ncross=1, nparent=2, mo=True, ndwt=w, **extra))
+        if tier == "thorough":
+            obs.append(SelectEncodings(enc=enc, n=3, ncross=2, nparent=2, **extra))
     return obs
 
 
